@@ -11,6 +11,7 @@ byte shifts, 128-bit half extraction, shuffles of bytes) say nothing and yield n
 import re
 
 from ..facts import src
+from ..util import is_assign
 
 EXTRACT = [(re.compile(r"^_mm(256|512)?_cvtsi(128|256|512)_si32$"), 32), (re.compile(r"^_mm(256|512)?_cvtsi(128|256|512)_si64x?$"), 64),
            (re.compile(r"^_mm(256|512)?_extract_epi8$"), 8), (re.compile(r"^_mm(256|512)?_extract_epi16$"), 16),
@@ -286,4 +287,80 @@ def check_lane_counters(ctx, fns, rule="R23.lane-counter", key_prefix="lane-coun
                 continue
             iters = bound // step
             ctx.ob(rule, key, P.where(a), what, iters <= limit, "up to %d iterations between resets" % iters)
+    return n
+
+
+# ---------------------------------------------------------------------------------------------- masked tails
+CMP_MASK = ("cmpeq", "cmpneq", "cmpgt", "cmpge", "cmplt", "cmple", "cmp_ep")
+
+
+def check_masked_tail(ctx, fns, rule="R23.masked-tail", key_prefix="masked-tail"):
+    """A vector filled by a zero-masking load (`_mm512_maskz_loadu_*(k, p)`) holds zeros in the lanes outside k. An
+    unmasked comparison of that vector with another one therefore answers for those lanes as well - with "equal"
+    whenever the other operand's lane is 0. Such a comparison result may only be used after `& k` (or the comparison
+    must be the masked form `_mm512_mask_cmp*_mask(k, ..)`); a use of the raw result lets the tail lanes decide,
+    and the input that shows it is the one whose compared value is 0 (all-zero run, zero key, zero threshold).
+    Tests of the vector against itself (`test_ep*_mask(v, v)`) are zero for the zero lanes and need no mask."""
+    P = ctx.P
+    n = 0
+    for fn in fns:
+        if fn.body is None:
+            continue
+        loads = {}      # decl id -> (name, mask text, node)
+        for s_ in fn.body.walk():
+            pairs = []
+            if s_.k == "DeclStmt":
+                pairs = [(dd.get("d"), dd.get("n"), i_) for dd, i_ in zip(s_.get("decls", []), s_.c) if i_ is not None]
+            elif is_assign(s_) and s_.op == "=" and s_.c[0].strip().k == "DeclRefExpr":
+                pairs = [(s_.c[0].strip().get("d"), s_.c[0].strip().name, s_.c[1])]
+            for d, nm, e in pairs:
+                c = e.strip_casts()
+                if c.k == "CallExpr" and "maskz_loadu" in iname(c) and c.args():
+                    loads[d] = (nm, src(c.args()[0].strip_casts()), c)
+        if not loads:
+            continue
+        for c in fn.calls():
+            nm = iname(c)
+            if not nm.startswith("_mm") or not nm.endswith("_mask") or not any(k in nm for k in CMP_MASK):
+                continue
+            if "_mask_cmp" in nm:
+                continue        # the masked form: lanes outside its mask answer 0
+            ops = [a.strip_casts() for a in c.args() if a is not None]
+            hit = [loads[a.get("d")] for a in ops if a.k == "DeclRefExpr" and a.get("d") in loads]
+            if not hit or (len(ops) >= 2 and src(ops[0]) == src(ops[1])):
+                continue
+            n += 1
+            lname, ktxt, lnode = hit[0]
+            key = "%s|%s:%s|%s" % (key_prefix, P.rel(fn.file), fn.name, lname)
+            what = "the result of `%s` on the zero-masked vector `%s` is used only after `& %s`" % (nm, lname, ktxt)
+            # where does the result go?
+            p = c.parent
+            while p is not None and p.k in ("ParenExpr", "ImplicitCastExpr", "CStyleCastExpr"):
+                p = p.parent
+            bad = None
+            if p is not None and p.k == "BinaryOperator" and p.op == "&" and any(src(x.strip_casts()) == ktxt for x in p.c):
+                pass
+            else:
+                rd = None
+                if p is not None and p.k == "DeclStmt":
+                    for dd, i_ in zip(p.get("decls", []), p.c):
+                        if i_ is not None and any(y is c for y in i_.walk()):
+                            rd = dd.get("d")
+                elif p is not None and is_assign(p) and p.c[0].strip().k == "DeclRefExpr":
+                    rd = p.c[0].strip().get("d")
+                if rd is None:
+                    bad = "the raw comparison result is used directly (`%s`)" % src(p if p is not None else c)[:60]
+                else:
+                    for u in fn.body.walk():
+                        if u.k == "DeclRefExpr" and u.get("d") == rd and u.i > c.i:
+                            q = u.parent
+                            while q is not None and q.k in ("ParenExpr", "ImplicitCastExpr", "CStyleCastExpr"):
+                                q = q.parent
+                            if q is not None and q.k == "BinaryOperator" and q.op == "&" and any(src(x.strip_casts()) == ktxt for x in q.c):
+                                continue
+                            if q is not None and q.k == "CompoundAssignOperator" and q.op == "&=" and src(q.c[1].strip_casts()) == ktxt:
+                                continue
+                            bad = "its result `%s` is used unmasked in `%s`: lanes outside `%s` hold 0 and compare as such" % (u.name, src(q if q is not None else u)[:50], ktxt)
+                            break
+            ctx.ob(rule, key, P.where(c), what, bad is None, bad or "")
     return n
